@@ -906,3 +906,60 @@ func ruleW9b(c *Ctx) {
 	ok := closedTest != 0 && (lastReset == 0 || lastReset < closedTest) && resetThenLeaves
 	R.Check(ok, "W9b", at, p.Position(loop.Pos()), "cursor reset, then closed → EOF, then wait", "the Queue iterator tests `closed` before it has reset a stale cursor (or does not look at the reset cursor's successor): when the cursor's entry was removed, the queue refilled and was then closed, the iterator reports io.EOF although unseen, never-removed items are queued")
 }
+
+// ---------------------------------------------------------------- X7b / N6  (constructor wiring)
+
+func ruleCtorWiring(c *Ctx) {
+	R := c.R
+	p := c.P
+	R.Rule("X7b", "NewQueue builds every queue on the quota tracker made from the validated options (the soft quota adapts even when it starts at the hard limit, so no other tracker is equivalent); NewUnlimitedQueue on the no-limit tracker", 2)
+	R.Rule("N6", "DequeOptions.Validate validates the very QueueOptions object NewDeque then builds the tracker from (Validate writes the defaults through that pointer; validating a copy leaves SoftQuota/BurstCredit at zero)", 1)
+	want := map[string]string{"pubsub.NewQueue": "queueLimitTrackerImpl", "pubsub.NewUnlimitedQueue": "queueNoLimitTrackerImpl"}
+	for name, tracker := range want {
+		f := p.FuncNamed(name)
+		if f == nil {
+			R.Fail("X7b", name, "-", "not found")
+			continue
+		}
+		info := f.Info()
+		bad, n := "", 0
+		walkNoLit(f.Body, func(x ast.Node) bool {
+			call, ok := x.(*ast.CallExpr)
+			if !ok || callName(info, call) != "pubsub.makeQueue" || len(call.Args) != 1 {
+				return true
+			}
+			n++
+			ct := concreteTypeOf(p, f, call.Args[0], 0)
+			if ct == nil || ct.Obj().Name() != tracker {
+				got := "?"
+				if ct != nil {
+					got = ct.Obj().Name()
+				}
+				bad = fmt.Sprintf("%s at %s", got, p.Position(call.Pos()))
+			}
+			return true
+		})
+		R.Check(n > 0 && bad == "", "X7b", name+"/tracker", p.Position(f.Pos()), "makeQueue("+tracker+")", fmt.Sprintf("%s builds a queue on %s instead of %s: the admission rules (soft quota decay, burst credit) no longer apply on that path — e.g. a queue with SoftQuota == HardLimit admits items the rules refuse after it was drained below half", name, bad, tracker))
+	}
+	f := p.FuncNamed("pubsub.(*DequeOptions).Validate")
+	if f == nil {
+		R.Fail("N6", "pubsub.(*DequeOptions).Validate", "-", "not found")
+		return
+	}
+	info := f.Info()
+	ok, n := true, 0
+	walkNoLit(f.Body, func(x ast.Node) bool {
+		call, isCall := x.(*ast.CallExpr)
+		if !isCall || callName(info, call) != "pubsub.(*QueueOptions).Validate" {
+			return true
+		}
+		n++
+		// the receiver must be the field opts.QueueOptions itself (a pointer), not a local copy
+		se, isSel := ast.Unparen(recvExpr(call)).(*ast.SelectorExpr)
+		if !isSel || se.Sel.Name != "QueueOptions" {
+			ok = false
+		}
+		return true
+	})
+	R.Check(ok && n > 0, "N6", "pubsub.(*DequeOptions).Validate/in-place", p.Position(f.Pos()), "opts.QueueOptions.Validate() on the shared object", "DequeOptions.Validate validates a copy of the QueueOptions (or does not validate them): the defaults are not written to the object NewDeque reads, so a deque built from QueueOptions{HardLimit: n} starts with quota 0 and refuses every push")
+}
